@@ -135,7 +135,29 @@ func c08ReorgGate(c *rep.Ctx) {
 	cmps, und := f.ExprCmps(roleRoot, roleLib, 0)
 	ok := len(cmps) == 1 && len(und) == 0 && cmps[0].Op == token.GEQ
 	var pos token.Pos
-	if len(cmps) > 0 {
+	// branch form: `if rootNo >= libNo { return true } ... return false` (any spelling of the comparison):
+	// decided on the ordering abstraction: true is returned exactly for d = root - LIB >= 0
+	var branchCmp *an.OrdCmp
+	if bc, bund := g.OrdCmps(roleRoot, roleLib, 0); len(bc) == 1 && len(bund) == 0 {
+		trues, falses := g.BoolReturns(true), g.BoolReturns(false)
+		good := len(trues) > 0 && len(falses) > 0
+		for _, sign := range []int{0, +1} {
+			e := g.EdgeFor(bc[0], sign)
+			if e == nil || g.CanReachAny(e, falses) || !g.CanReachAny(e, trues) {
+				good = false
+			}
+		}
+		if e := g.EdgeFor(bc[0], -1); e == nil || g.CanReachAny(e, trues) || !g.CanReachAny(e, falses) {
+			good = false
+		}
+		if good {
+			branchCmp = &bc[0]
+		}
+	}
+	if branchCmp != nil {
+		ok = true
+		pos = branchCmp.Expr.Pos()
+	} else if len(cmps) > 0 {
 		pos = cmps[0].Expr.Pos()
 		// the comparison decides the result: it is returned (directly or through one local) on the path where a LIB exists
 		ret := false
@@ -157,6 +179,7 @@ func c08ReorgGate(c *rep.Ctx) {
 	}
 	c.Check("reorg-gate", "consensus/impl/dpos.(*Status).NeedReorganization|operator", pos, ok, "a reorganisation is allowed exactly when the fork point's number is >= the LIB number (a fork below the irreversible block is refused; together with `number <= LIB refused` for blocks the two guards partition consistently)")
 	// `return true` without a comparison only when no LIB exists
+	nUncond := 0
 	for _, r := range g.BoolReturns(true) {
 		at := func(e ast.Expr) (string, bool, bool) {
 			be, isB := e.(*ast.BinaryExpr)
@@ -173,7 +196,17 @@ func c08ReorgGate(c *rep.Ctx) {
 			return "", false, false
 		}
 		okT, how := g.GuardedAt(r, at, map[string]bool{"nolib": true})
+		if !okT && branchCmp != nil {
+			// the `return true` of the branch form: reached only on the root >= LIB edges (checked above)
+			if e := g.EdgeFor(*branchCmp, -1); e != nil && !g.CanReachAny(e, []*an.Node{r}) && g.Dominated(r, an.SetOf(branchCmp.Node)) {
+				continue
+			}
+		}
+		nUncond++
 		c.Check("reorg-gate", "consensus/impl/dpos.(*Status).NeedReorganization|unconditional-true", r.Ast.Pos(), okT, "the veto is skipped only while no LIB exists: "+how)
+	}
+	if nUncond == 0 {
+		c.Undecide("reorg-gate", "consensus/impl/dpos.(*Status).NeedReorganization", "no `return true` for the no-LIB case found: the shape of the veto changed")
 	}
 }
 
